@@ -326,12 +326,22 @@ func (vc *VC) checkCallSites(ins *ssa.Call) {
 		heapNow := vc.cur.heap
 		env.local = func(name string) *Val { return vc.localAtInstr(name, ins, heapNow) }
 		i := 0
+		own := map[string]bool{}
+		for _, p := range vc.fn.Params {
+			own[p.Name()] = true
+		}
+		setArg := func(i int, v *Val) {
+			env.vars[fmt.Sprintf("carg%d", i)] = v
+			if n := fmt.Sprintf("arg%d", i); !own[n] {
+				env.vars[n] = v // the function's own parameters win over call-argument names
+			}
+		}
 		if cc.IsInvoke() {
-			env.vars["arg0"] = vc.val(cc.Value)
+			setArg(0, vc.val(cc.Value))
 			i = 1
 		}
 		for _, a := range cc.Args {
-			env.vars[fmt.Sprintf("arg%d", i)] = vc.val(a)
+			setArg(i, vc.val(a))
 			i++
 		}
 		t := vc.compileClause(env, cs.Cl)
@@ -543,8 +553,13 @@ func (vc *VC) applyContract(ins *ssa.Call, c *Contract, f *ssa.Function, sig *ty
 			v := vc.compile(env, cl.N)
 			comps := vc.elemComps(v)
 			_ = comps
-			rr, ro, _ := vc.regionOf(v)
-			vc.checkFrameAt(rr, ro, ins.Pos())
+			rr, ro, rn := vc.regionOf(v)
+			if rn != "" && sEq(rn, off64(0)) != "false" && sEq(rn, off64(0)) != "true" {
+				// an empty callee window cannot be written
+				vc.checkFrameIfAt(sNot(sEq(rn, off64(0))), rr, ro, ins.Pos())
+			} else {
+				vc.checkFrameAt(rr, ro, ins.Pos())
+			}
 			vc.havocRegion(h, v)
 		}
 		na := vc.fresh("alloc", "Int")
